@@ -41,7 +41,7 @@ func main() {
 	theProgram = p
 	if *funcs {
 		for _, fn := range p.OwnFuncs {
-			if fn.Parent() == nil && fn.Synthetic == "" {
+			if fn.Synthetic == "" {
 				fmt.Println(FuncKey(fn))
 			}
 		}
